@@ -102,7 +102,10 @@ fn mass_mint(rng: &mut Rng) -> Scenario {
     }
 }
 
-const MODULE: &str = "[p: P[x: 1, y: 0x0102], i: [2, 3] __integer_add__, b: [0x01, 0x02] __binary_concat__, u: [x: 1, y: 0x0102]]";
+// The module also compares at its own top level - evaluated while it is imported, at compile time, by
+// another executor than the workers' - tuples of one shape that carry different tuple ids (written
+// as a literal / built by a generic function) and exports the verdicts.
+const MODULE: &str = "wrapm = #<'t>'t { =v, [tag: v] }, mkl = #<'t>['t, 't] { =[x, y], [x, y] }, lit = [1, 2], vq = [[tag: 7], 7 wrapm] { | =[q, q] => 1 | 0 }, vp = [1, 2] mkl { | =&lit => 1 | 0 }, vn = [[tag: 7], 8 wrapm] { | =[q, q] => 1 | 0 }, [p: P[x: 1, y: 0x0102], i: [2, 3] __integer_add__, b: [0x01, 0x02] __binary_concat__, u: [x: 1, y: 0x0102], vq: vq, vp: vp, vn: vn]";
 
 impl Property for C13 {
     fn id(&self) -> &'static str {
@@ -391,6 +394,13 @@ impl Property for C13 {
         if nilres {
             fin.push("nvs".into());
             expected.push(format!("[{}]", nv_expected.join(", ")));
+        }
+        if uses_module {
+            let cur = lines.last_mut().unwrap();
+            cur.push("mvv = %vals".to_string());
+            cur.push("mvs = [mvv.vq, mvv.vp, mvv.vn]".to_string());
+            fin.push("mvs".into());
+            expected.push("[1, 1, 0]".to_string());
         }
         fin.push("rvs".into());
         fin.push(format!("[{}]", ref_vars.join(", ")));
